@@ -940,7 +940,7 @@ func (m *Meta) LayeredOnto(latest *Meta) *Meta {
 		for i := range ti.Indexes {
 			ti.Indexes[i] = ti.Indexes[i].UpdateWith(lti.Indexes[i])
 		}
-		ti.lastMod = m.info.Clock
+		ti.lastMod = latest.info.Clock
 		// ti.Check()
 		info.Put(ti)
 	}
